@@ -188,6 +188,7 @@ func main() {
 	}
 	if len(rep.Violations) == 0 {
 		slowRecreate(rep, w)
+		slowRenameOnto(rep, w)
 		rounds := 40
 		if o.Thorough {
 			rounds = 600
@@ -231,6 +232,66 @@ func slowRecreate(rep *hx.Report, w *world.World) {
 		time.Sleep(1200 * time.Millisecond)
 	}
 	rep.Hit("slow-recreate:fresh")
+}
+
+// slowRenameOnto: a name that comes to denote a different set of messages by RENAME — INBOX renamed onto the same name again
+// and again (each time the name's previous holder has been deleted or renamed away), and an ordinary mailbox renamed onto a
+// name that was used before — more than a clock second apart each time (outside finding C03-F1): the name never carries a
+// UIDVALIDITY it had before, and the renamed INBOX keeps neither the UIDs' meaning nor the validity of an earlier holder
+func slowRenameOnto(rep *hx.Report, w *world.World) {
+	rep.Case("slow-rename-onto", true)
+	c := w.Login("slowrename@example.com")
+	defer c.Close()
+	validity := func(name string) string {
+		v := ""
+		for _, l := range c.Cmd("STATUS " + name + " (UIDVALIDITY)").Untagged {
+			if m := reValidity.FindStringSubmatch(l); m != nil {
+				v = m[1]
+			}
+		}
+		return v
+	}
+	seenOld := map[string]int{}
+	seenB := map[string]int{}
+	for inc := 0; inc < 3; inc++ {
+		// INBOX -> Old
+		c.Append("INBOX", "", hist.Msg(7100+2*inc))
+		c.Append("INBOX", "", hist.Msg(7101+2*inc))
+		if !c.Cmd("RENAME INBOX Old").OK() {
+			rep.Violate("broken-correspondence", "slow-rename-onto", "RENAME INBOX Old refused", nil)
+			return
+		}
+		v := validity("Old")
+		if prev, ok := seenOld[v]; ok {
+			rep.Violate("impl-violation", "UIDVALIDITY never used with that name before (Props.C03)", fmt.Sprintf("mailbox Old, produced by the RENAME INBOX Old number %d (%d.2 s after number %d, whose Old had been removed), carries UIDVALIDITY %s again while it holds other messages", inc, inc-prev, prev, v), []string{"slow-rename-onto"})
+			return
+		}
+		seenOld[v] = inc
+		if vi := validity("INBOX"); vi == v && v != "" {
+			rep.Note("INBOX and the mailbox it was renamed to share UIDVALIDITY %s", v)
+		}
+		if inc%2 == 0 {
+			c.Cmd("DELETE Old")
+		} else {
+			c.Cmd(fmt.Sprintf("RENAME Old Gone%d", inc))
+		}
+		// A -> B, B used before
+		c.Cmd("CREATE A")
+		c.Append("A", "", hist.Msg(7200+inc))
+		if !c.Cmd("RENAME A B").OK() {
+			rep.Violate("broken-correspondence", "slow-rename-onto", "RENAME A B refused", nil)
+			return
+		}
+		vb := validity("B")
+		if prev, ok := seenB[vb]; ok {
+			rep.Violate("impl-violation", "UIDVALIDITY never used with that name before (Props.C03)", fmt.Sprintf("mailbox B, produced by RENAME A B number %d (%d.2 s after number %d, whose B had been deleted), carries UIDVALIDITY %s again while it holds another message", inc, inc-prev, prev, vb), []string{"slow-rename-onto"})
+			return
+		}
+		seenB[vb] = inc
+		c.Cmd("DELETE B")
+		time.Sleep(1200 * time.Millisecond)
+	}
+	rep.Hit("slow-rename-onto:fresh")
 }
 
 // concurrentWriters: two APPENDs and two deliveries on one INBOX at the same time ("every interleaving of two or more writers
